@@ -8,6 +8,7 @@ import (
 	"fmt"
 	"io"
 	"io/fs"
+	"os"
 	"reflect"
 	"sort"
 	"strings"
@@ -181,6 +182,12 @@ type mcRec struct {
 	wall      int // fixed wall clock seconds, -1 default
 	rand      int // random byte, -1 default
 	fs        *fcRec
+	stderr    int // index into stdout buffers, -1 none
+	stdin     int // id of the constant stdin, -1 none
+	nano      int // fixed monotonic clock value, -1 default
+	sleepFn   int // id of the nanosleep function, -1 default
+	yieldFn   int // id of the osyield function, -1 default
+	sysWall   bool
 }
 
 type fcRec struct {
@@ -213,6 +220,16 @@ type node struct {
 type rcRec struct {
 	limit    uint32
 	features api.CoreFeatures
+}
+
+// fnCalls counts invocations of configured nanosleep (id) / osyield (1000+id) functions.
+var fnCalls = map[int]int{}
+
+// constStdin is a stateless stdin: every Read returns the same bytes once per call.
+type constStdin struct{ id int }
+
+func (c constStdin) Read(p []byte) (int, error) {
+	return copy(p, fmt.Sprintf("stdin-%d", c.id)), nil
 }
 
 type constReader struct{ b byte }
@@ -260,7 +277,7 @@ func (c19) Run(t *tape.Tape, cfg sim.Config) (res sim.Result) {
 		return n
 	}
 	n0 := add("mc", wazero.NewModuleConfig(), -1, "NewModuleConfig")
-	n0.mc = &mcRec{stdout: -1, wall: -1, rand: -1}
+	n0.mc = &mcRec{stdout: -1, wall: -1, rand: -1, stderr: -1, stdin: -1, nano: -1, sleepFn: -1, yieldFn: -1}
 	n1 := add("fc", wazero.NewFSConfig(), -1, "NewFSConfig")
 	n1.fc = &fcRec{}
 	n2 := add("rc", wazero.NewRuntimeConfigInterpreter(), -1, "NewRuntimeConfigInterpreter")
@@ -296,7 +313,41 @@ func (c19) Run(t *tape.Tape, cfg sim.Config) (res sim.Result) {
 			mc := p.val.(wazero.ModuleConfig)
 			rec := p.mc.clone()
 			var nv wazero.ModuleConfig
-			switch t.Weighted(6, 3, 2, 2, 2, 2, 1, 2, 2) {
+			switch t.Weighted(6, 3, 2, 2, 2, 2, 1, 2, 2, 1, 1, 1, 1, 1, 1, 1) {
+			case 9:
+				stdouts = append(stdouts, &bytes.Buffer{})
+				how = fmt.Sprintf("WithStderr(buf%d)", len(stdouts)-1)
+				nv = mc.WithStderr(stdouts[len(stdouts)-1])
+				rec.stderr = len(stdouts) - 1
+			case 10:
+				how = fmt.Sprintf("WithStdin(const %d)", step)
+				nv = mc.WithStdin(constStdin{step})
+				rec.stdin = step
+			case 11:
+				v := 5000 + step
+				how = fmt.Sprintf("WithNanotime(%d)", v)
+				nv = mc.WithNanotime(func() int64 { return int64(v) }, sys.ClockResolution(1))
+				rec.nano = v
+			case 12:
+				id := step
+				how = fmt.Sprintf("WithNanosleep(fn%d)", id)
+				nv = mc.WithNanosleep(func(ns int64) { fnCalls[id]++ })
+				rec.sleepFn = id
+			case 13:
+				id := step
+				how = fmt.Sprintf("WithOsyield(fn%d)", id)
+				nv = mc.WithOsyield(func() { fnCalls[1000+id]++ })
+				rec.yieldFn = id
+			case 14:
+				how = "WithSysWalltime()"
+				nv = mc.WithSysWalltime()
+				rec.wall, rec.sysWall = -1, true
+			case 15:
+				marker++
+				mname := fmt.Sprintf("marker%d", marker)
+				how = fmt.Sprintf("WithFS(%s)", mname)
+				nv = mc.WithFS(fstest.MapFS{mname: &fstest.MapFile{Data: []byte("x")}})
+				rec.fs = &fcRec{mounts: [][2]string{{"/", mname}}}
 			case 0:
 				k, v := tape.Pick(t, envKeys), fmt.Sprintf("v%d", step)
 				how = fmt.Sprintf("WithEnv(%s,%s)", k, v)
@@ -344,7 +395,7 @@ func (c19) Run(t *tape.Tape, cfg sim.Config) (res sim.Result) {
 				sec := 1000 + step
 				how = fmt.Sprintf("WithWalltime(%d)", sec)
 				nv = mc.WithWalltime(func() (int64, int32) { return int64(sec), 0 }, sys.ClockResolution(1))
-				rec.wall = sec
+				rec.wall, rec.sysWall = sec, false
 			case 6:
 				b := byte(0x40 + step)
 				how = fmt.Sprintf("WithRandSource(%#x)", b)
@@ -385,6 +436,16 @@ func (c19) Run(t *tape.Tape, cfg sim.Config) (res sim.Result) {
 			var mfs fs.FS = fstest.MapFS{mname: &fstest.MapFile{Data: []byte("x")}}
 			how = fmt.Sprintf("WithFSMount(%s,%q)", mname, gp)
 			nv := fc.WithFSMount(mfs, gp)
+			switch t.Choose(4) {
+			case 2:
+				mname = ""
+				how = fmt.Sprintf("WithDirMount(scratch,%q)", gp)
+				nv = fc.WithDirMount(os.TempDir(), gp)
+			case 3:
+				mname = ""
+				how = fmt.Sprintf("WithReadOnlyDirMount(scratch,%q)", gp)
+				nv = fc.WithReadOnlyDirMount(os.TempDir(), gp)
+			}
 			found := false
 			for j := range rec.mounts {
 				if cleanGuest(rec.mounts[j][0]) == cleanGuest(gp) {
@@ -402,7 +463,7 @@ func (c19) Run(t *tape.Tape, cfg sim.Config) (res sim.Result) {
 			rc := p.val.(wazero.RuntimeConfig)
 			rec := *p.rc
 			var nv wazero.RuntimeConfig
-			switch t.Choose(5) {
+			switch t.Choose(6) {
 			case 0:
 				rec.limit = uint32(1 + t.Choose(4))
 				how = fmt.Sprintf("WithMemoryLimitPages(%d)", rec.limit)
@@ -419,6 +480,10 @@ func (c19) Run(t *tape.Tape, cfg sim.Config) (res sim.Result) {
 				b := t.Chance(1, 2)
 				how = fmt.Sprintf("WithDebugInfoEnabled(%v)", b)
 				nv = rc.WithDebugInfoEnabled(b)
+			case 4:
+				b := t.Chance(1, 2)
+				how = fmt.Sprintf("WithCustomSections(%v)", b)
+				nv = rc.WithCustomSections(b)
 			default:
 				b := t.Chance(1, 2)
 				how = fmt.Sprintf("WithMemoryCapacityFromMax(%v)", b)
@@ -553,6 +618,9 @@ func observeMC(res *sim.Result, rt any, n *node, idx int, after string, stdouts 
 	// each mount shows its own marker file
 	if rec.fs != nil {
 		for i, m := range rec.fs.mounts {
+			if m[1] == "" {
+				continue // host directory mount: no marker
+			}
 			g.Write(0x200, []byte(m[1]))
 			e, err := g.Call(ctx, "path_filestat_get", uint64(3+i), 0, 0x200, uint64(len(m[1])), 0x500)
 			if err != nil || e != 0 {
@@ -593,16 +661,85 @@ func observeMC(res *sim.Result, rt any, n *node, idx int, after string, stdouts 
 			return fail("stdout buffer %d received %q although the node writes to buffer %d", bi, b.Bytes(), rec.stdout)
 		}
 	}
+	// stderr wiring
+	for _, b := range stdouts {
+		b.Reset()
+	}
+	if e, err := g.Call(ctx, "fd_write", 2, 0x400, 1, 0x100); err != nil || e != 0 {
+		return fail("fd_write(2) failed: %v errno %d", err, e)
+	}
+	for bi, b := range stdouts {
+		if bi == rec.stderr {
+			if !bytes.Equal(b.Bytes(), msg) {
+				return fail("stderr buffer %d received %q, expected %q", bi, b.Bytes(), msg)
+			}
+		} else if b.Len() != 0 {
+			return fail("buffer %d received %q although the node's stderr is buffer %d", bi, b.Bytes(), rec.stderr)
+		}
+	}
+	// stdin
+	g.PutU32(0x400, 0x1000)
+	g.PutU32(0x404, 16)
+	if e, err := g.Call(ctx, "fd_read", 0, 0x400, 1, 0x100); err != nil || e != 0 {
+		return fail("fd_read(0) failed: %v errno %d", err, e)
+	}
+	gotIn := string(g.Read(0x1000, g.U32(0x100)))
+	wantIn := ""
+	if rec.stdin >= 0 {
+		wantIn = fmt.Sprintf("stdin-%d", rec.stdin)
+	}
+	if gotIn != wantIn {
+		return fail("stdin delivered %q, model has %q", gotIn, wantIn)
+	}
 	// wall clock
 	if e, err := g.Call(ctx, "clock_time_get", 0, 0, 0x100); err != nil || e != 0 {
 		return fail("clock_time_get failed")
 	}
 	ts := g.U64(0x100)
-	if rec.wall >= 0 && ts != uint64(rec.wall)*1_000_000_000 {
-		return fail("wall clock %d, model has %d s", ts, rec.wall)
+	switch {
+	case rec.sysWall:
+		if ts < 1_700_000_000_000_000_000 {
+			return fail("wall clock %d, model has the system clock", ts)
+		}
+	case rec.wall >= 0:
+		if ts != uint64(rec.wall)*1_000_000_000 {
+			return fail("wall clock %d, model has %d s", ts, rec.wall)
+		}
+	default:
+		if ts != 1640995200000000000 {
+			return fail("wall clock %d, expected the default fake clock", ts)
+		}
 	}
-	if rec.wall < 0 && ts != 1640995200000000000 {
-		return fail("wall clock %d, expected the default fake clock", ts)
+	// monotonic clock
+	if rec.nano >= 0 {
+		if e, err := g.Call(ctx, "clock_time_get", 1, 0, 0x100); err != nil || e != 0 || g.U64(0x100) != uint64(rec.nano) {
+			return fail("monotonic clock %d (errno %d), model has %d", g.U64(0x100), e, rec.nano)
+		}
+	}
+	// nanosleep / osyield functions: exactly the node's own function is invoked
+	for k := range fnCalls {
+		delete(fnCalls, k)
+	}
+	sub := make([]byte, 48)
+	sub[16] = 1
+	sub[24] = 0x40
+	sub[25] = 0x42
+	sub[26] = 0x0f // 1 ms
+	g.Write(0x4000, sub)
+	if e, err := g.Call(ctx, "poll_oneoff", 0x4000, 0x5000, 1, 0x100); err != nil || e != 0 {
+		return fail("poll_oneoff failed: %v errno %d", err, e)
+	}
+	g.Call(ctx, "sched_yield")
+	for k, n := range fnCalls {
+		if n > 0 && k != rec.sleepFn && k != 1000+rec.yieldFn {
+			return fail("function %d (of another configuration) was invoked; the node has nanosleep fn%d / osyield fn%d", k, rec.sleepFn, rec.yieldFn)
+		}
+	}
+	if rec.sleepFn >= 0 && fnCalls[rec.sleepFn] == 0 {
+		return fail("the node's nanosleep function fn%d was not invoked by poll_oneoff", rec.sleepFn)
+	}
+	if rec.yieldFn >= 0 && fnCalls[1000+rec.yieldFn] == 0 {
+		return fail("the node's osyield function fn%d was not invoked by sched_yield", rec.yieldFn)
 	}
 	// random
 	if rec.rand >= 0 {
